@@ -66,6 +66,9 @@ def _marker_maps(term):
 
 
 def run(db, chk) -> None:
+    from ..specs.discipline import check_stateless
+    check_stateless(db, chk, "C07.R-stateless", ['hta.analyzers.communication_analysis'])      # the result is a function of the arguments: no state kept between calls, caller's Trace untouched
+    chk.floor("C07.R-stateless", 4)
     check_merge(db, chk, "C07.R1-interval-union")
     chk.floor("C07.R1-interval-union", 8)
     m = db.mod(CA)
